@@ -93,6 +93,11 @@ def run(ck: Checker, prog: Program, tier: str):
     from . import c04
     with ck.borrow(c04, "C01.R4+"):
         ck.guard(c04._r4, ck, prog, "C04.R4")
+    # the FFT length belongs to the definition of the curve: it comes from this call's records and the caller's request, never from
+    # what an earlier call on other records left behind in the caller's settings
+    from . import c09
+    with ck.borrow(c09, "C01.R7+"):
+        ck.guard(c09._r2c, ck, prog)
     # the settings a caller constructs are the settings the pipeline reads (taper, smoothing, FFT length, method, ...)
     from .c15 import check_delivery
     ck.guard(check_delivery, ck, prog, "C01.R7", ["HvsrTraditionalProcessingSettings", "HvsrTraditionalSingleAzimuthProcessingSettings", "HvsrTraditionalRotDppProcessingSettings", "HvsrAzimuthalProcessingSettings", "HvsrDiffuseFieldProcessingSettings"],
